@@ -119,7 +119,9 @@ def build_real(case):
         if nd["kind"] == "input":
             handles[i] = pb.create_input(name, int, None) if nd["acceptsNone"] else pb.create_input(name, int)
         elif nd["kind"] == "literal":
-            v = nd["value"]; handles[i] = pb.literal(None if v is None else v["i"], name=name)
+            v = nd["value"]
+            if nd.get("inline"): handles[i] = v["s"]          # a plain string handed to `connect` as the value itself — even when it spells a node's name
+            else: handles[i] = pb.literal(None if v is None else v.get("i", v.get("s")), name=name)
         else:
             params = [(f"p{j}", p["lzy"], p["acceptsNone"]) for j, p in enumerate(nd["params"])]
             handles[i] = pb.add_component(name, make_fn(i, nd["op"], nd["k"], params))
@@ -132,6 +134,12 @@ def build_real(case):
                 if via == "name": pb.connect(f"n{i}", **wiring)
                 elif via == "alias": pb.alias(f"alias-of-n{i}", handles[i]); pb.connect(f"alias-of-n{i}", **wiring)
                 else: pb.connect(handles[i], **wiring)
+    if case.get("replace_partial") is not None:
+        # a component replaced by an equal one with ONE of its connections given again: the others are retained, as documented
+        i = case["replace_partial"]; nd = nodes[i]
+        params = [(f"p{j}", p["lzy"], p["acceptsNone"]) for j, p in enumerate(nd["params"])]
+        j0 = next(j for j, p in enumerate(nd["params"]) if p["src"] is not None)
+        pb.replace_component(f"n{i}", make_fn(i, nd["op"], nd["k"], params), **{f"p{j0}": handles[nd["params"][j0]["src"]]})
     for pn, tgt in (case.get("defaults") or {}).items(): pb.default_connection(pn, handles[tgt])
     if case.get("redefault"):
         how = case.get("between", "build")
@@ -177,6 +185,18 @@ def gen(rng: random.Random, tier: str):
     for k in range(n):
         c = gen_redefault(rng) if k % 25 == 7 else gen_case(rng)
         c["connect_via"] = ("node", "node", "name", "alias")[k % 4]          # how the components are addressed when they are wired
+        if k % 6 == 1 and "redefault" not in c:
+            # directed: a literal string that happens to spell the name of another node, handed to `connect` directly — it is a value
+            used = {p["src"] for nd in c["nodes"] if nd["kind"] == "comp" for p in nd["params"]}
+            lits = [i for i, nd in enumerate(c["nodes"]) if nd["kind"] == "literal" and i in used and i not in (c.get("defaults") or {}).values()]
+            others = [i for i, nd in enumerate(c["nodes"]) if nd["kind"] in ("input", "comp")]
+            if lits and others:
+                i = rng.choice(lits); t = rng.choice(others)
+                c["nodes"][i] = {"kind": "literal", "value": {"s": f"n{t}"}, "inline": True}
+                c["requests"] = [r if r != i else t for r in c["requests"]]
+        if k % 6 == 4:
+            multi = [i for i, nd in enumerate(c["nodes"]) if nd["kind"] == "comp" and sum(1 for p in nd["params"] if p["src"] is not None) >= 2]
+            if multi: c["replace_partial"] = rng.choice(multi)
         yield c
 
 def run(case: dict, lean: Lean) -> Outcome:
@@ -213,6 +233,8 @@ def run(case: dict, lean: Lean) -> Outcome:
     if as_is != rep: classes.append("as-is ≠ repaired")
     if case.get("defaults"): classes.append("default connections")
     if case.get("connect_via", "node") != "node": classes.append("wired by " + case["connect_via"])
+    if case.get("replace_partial") is not None: classes.append("component replaced with one connection given again")
+    if any(nd.get("inline") for nd in case["nodes"]): classes.append("string literal spelling a node name")
     if case.get("redefault"): classes.append("defaults re-pointed after " + case.get("between", "build"))
     if any(nd["kind"] == "comp" and nd["op"] == "raise" and nd["k"] % 4 == 1 for nd in nodes): classes.append("component raising KeyError")
     key = None
